@@ -841,3 +841,429 @@ def c14_run(ctx, scale):
 
 
 register("C14", c14_run)
+
+
+# ------------------------------------------------------------------------------------------
+# C12: memory
+
+def mk_header(nframes, w, h, depth=32):
+    b = struct.pack("<IHHHHHIHIIBBHHBBhhHH", 0, 0xA5E0, nframes, w, h, depth, 1, 100, 0, 0, 0, 0, 0, 0, 1, 1, 0, 0, 16, 16)
+    return b + bytes(128 - len(b))
+
+
+def mk_chunk(ty, payload):
+    return struct.pack("<IH", 6 + len(payload), ty) + payload
+
+
+def mk_frame(chunks):
+    body = b"".join(chunks)
+    return struct.pack("<IHHHHI", 16 + len(body), 0xF1FA, min(len(chunks), 65535), 100, 0, len(chunks)) + body
+
+
+def mk_layer(name=b"L", ltype=0, level=0):
+    return mk_chunk(0x2004, struct.pack("<HHHHHHBBH", 1, ltype, level, 0, 0, 0, 255, 0, 0) + struct.pack("<H", len(name)) + name)
+
+
+def hostile_memory_inputs(ctx, scale):
+    import zlib
+    out = []
+    # deflate bombs: a cel whose declared size matches a huge run of zeros
+    for side in ((512, 512), (2000, 2000)) if ctx.quick else ((512, 512), (2000, 2000), (4000, 4000)):
+        w, h = side
+        z = zlib.compress(bytes(w * h * 4), 9)
+        cel = mk_chunk(0x2005, struct.pack("<HhhBH", 0, 0, 0, 255, 2) + bytes(7) + struct.pack("<HH", w, h) + z)
+        out.append((f"bomb/{w}x{h}", mk_header(1, 4, 4) + mk_frame([mk_layer(), cel])))
+        # the same stream under a small declared size (rejected only after inflation)
+        cel2 = mk_chunk(0x2005, struct.pack("<HhhBH", 0, 0, 0, 255, 2) + bytes(7) + struct.pack("<HH", 1, 1) + z)
+        out.append((f"bomb-small-decl/{w}x{h}", mk_header(1, 4, 4) + mk_frame([mk_layer(), cel2])))
+    # frame-count skeletons
+    for nf in (1000, 65535):
+        out.append((f"frames/{nf}", mk_header(nf, 4, 4) + mk_frame([mk_layer()]) + mk_frame([]) * (nf - 1)))
+    # many layers x many frames with one linked cel each on the last layer (dense-table shape)
+    for nl, nf in ((300, 300), (2000, 500)) if ctx.quick else ((300, 300), (2000, 500), (6000, 3000)):
+        px = bytes([1, 2, 3, 255])
+        f0 = mk_frame([mk_layer()] * nl + [mk_chunk(0x2005, struct.pack("<HhhBH", nl - 1, 0, 0, 255, 0) + bytes(7) + struct.pack("<HH", 1, 1) + px)])
+        link = mk_chunk(0x2005, struct.pack("<HhhBH", nl - 1, 0, 0, 255, 1) + bytes(7) + struct.pack("<H", 0))
+        out.append((f"dense/{nl}x{nf}", mk_header(nf, 4, 4) + f0 + mk_frame([link]) * (nf - 1)))
+    # many tags chunks each declaring 65535 tags
+    tags = mk_chunk(0x2018, struct.pack("<H", 65535) + bytes(8))
+    out.append(("tags-declared", mk_header(1, 4, 4) + mk_frame([mk_layer()] + [tags] * 50)))
+    return out
+
+
+def c12_run(ctx, scale):
+    res = Result("corpus and generated files with every declared size / count field (u16 and u32 at every offset of "
+                 "header, frame headers and chunk prefixes) raised to large boundary values, deflate bombs, 65535-frame "
+                 "skeletons, layers x frames shapes, the D13/D14 defect inputs; a counting global allocator measures the "
+                 "peak live bytes of AsepriteFile::read; oracle: peak <= 64 MiB + 8192 x input length; correspondence: "
+                 "peak <= the model's allocation account; distinct = distinct inputs")
+    rng = random.Random(ctx.seed * 911 + scale)
+    base = [(c, b) for c, b in vlib.corpus_files(max_size=9000)]
+    gen, _ = vlib.gen_cases("struct", ctx.seed * 41 + scale, 30 if ctx.quick else 300)
+    gen2, _ = vlib.gen_cases("tiles", ctx.seed * 43 + scale, 15 if ctx.quick else 150)
+    base += gen + gen2
+    files = vlib.verif_corpus() + hostile_memory_inputs(ctx, scale)
+    big = {2: [255, 256, 4096, 32767, 32768, 65534, 65535],
+           4: [65535, 65536, 1 << 20, 1 << 24, 0x7fffffff, 0x80000000, 0xfffffffe, 0xffffffff]}
+    n = (2500 if ctx.quick else 120000) * scale
+    cache = {}
+    for k in range(n):
+        cid, b = base[rng.randrange(len(base))]
+        if cid not in cache:
+            cache[cid] = [s for s in vlib.mutation_sites(b) if s[1] in (2, 4)]
+        sites = cache[cid]
+        o, w, kind = sites[rng.randrange(len(sites))]
+        v = rng.choice(big[w])
+        files.append((f"decl/{cid}/{o}:{w}:{v}", vlib.mutate(b, o, w, v)))
+    seen = set()
+    uniq = []
+    for cid, b in files:
+        if cid not in seen:
+            seen.add(cid)
+            uniq.append((cid, b))
+    files = uniq
+    reqs = [f"ALLOC {cid} {b.hex() or '-'}" for cid, b in files]
+    impl, _ = vlib.run_impl(reqs, "release", timeout=1200)
+    model, _ = vlib.run_model(reqs, timeout=1200)
+    res.sections = ["alloc"]
+    worst = (0, None)
+    for cid, data in files:
+        res.evaluations += 1
+        res.compared += 1
+        res._distinct.add(hash(data))
+        il = impl.get(cid, [])
+        ml = model.get(cid, [])
+        line = next((l for l in il if l.startswith("alloc ")), None)
+        mline = next((l for l in ml if l.startswith("alloc ")), None)
+        bound = 64 * 1048576 + 8192 * len(data)
+        if line is None:
+            # the worker died: an allocation above the refusal threshold or an abort
+            detail = " ".join(il)[-300:]
+            res.oracle_failures.append({"id": cid, "what": "loading aborted the process / exceeded the allocation guard: " + detail,
+                                        "input_hex": data.hex() if len(data) < 300000 else data[:2000].hex() + "...",
+                                        "call": "AsepriteFile::read under the counting allocator"})
+            continue
+        kv = dict(x.split("=") for x in line.split(" ")[1:])
+        peak = int(kv["peak"])
+        res.note("result:" + kv["result"])
+        if peak * 1000 // bound > worst[0]:
+            worst = (peak * 1000 // bound, cid)
+        if len(res.samples) < 6 and (cid.startswith("bomb") or cid.startswith("dense") or cid.startswith("frames")):
+            res.samples.append({"id": cid, "input_bytes": len(data), "peak_live_bytes": peak,
+                                "largest_request": int(kv["largest"]), "bound": bound})
+        if peak > bound:
+            res.oracle_failures.append({"id": cid, "what": f"peak live heap {peak} exceeds 64 MiB + 8192 x {len(data)} = {bound}",
+                                        "input_hex": data.hex() if len(data) < 300000 else data[:2000].hex() + "...",
+                                        "largest_request": int(kv["largest"]),
+                                        "call": "AsepriteFile::read under the counting allocator"})
+            continue
+        if mline is None:
+            raise vlib.Broken("model gave no account for " + cid)
+        mkv = dict(x.split("=") for x in mline.split(" ")[1:])
+        if peak > int(mkv["reserved"]):
+            res.corr_diffs.append({"correspondence": "Ase.Alloc.reserved >= measured peak of AsepriteFile::read",
+                                   "id": cid, "input_hex": data[:4000].hex(), "measured_peak": peak,
+                                   "model_reserved": int(mkv["reserved"])})
+    res.distribution["worst_peak_permille_of_bound"] = worst[0]
+    res.distribution["worst_case"] = worst[1]
+    return res
+
+
+register("C12", c12_run)
+
+
+# ------------------------------------------------------------------------------------------
+# C07: encodings of the same sprite
+
+def recompress(b, level):
+    """rewrite the zlib payload of every compressed cel (type 2) with another compression level;
+    chunk and frame sizes are adjusted; the meaning is unchanged"""
+    import zlib
+    out = bytearray(b[:128])
+    pos = 128
+    nframes = struct.unpack_from("<H", b, 6)[0]
+    for _ in range(nframes):
+        nb, magic, old, dur, ph, new = struct.unpack_from("<IHHHHI", b, pos)
+        n = new if new else old
+        chunks = []
+        q = pos + 16
+        for _ in range(n):
+            sz, ty = struct.unpack_from("<IH", b, q)
+            payload = b[q + 6:q + sz]
+            if ty == 0x2005 and struct.unpack_from("<H", payload, 7)[0] == 2:
+                d = zlib.decompressobj()
+                raw = d.decompress(payload[20:])
+                pad = d.unused_data
+                payload = payload[:20] + zlib.compress(raw, level) + pad
+            chunks.append(struct.pack("<IH", 6 + len(payload), ty) + payload)
+            q += sz
+        body = b"".join(chunks)
+        slack = nb - (q - pos)
+        out += struct.pack("<IHHHHI", 16 + len(body) + max(0, slack), magic, old, dur, ph, new) + body
+        pos = q
+    out += b[pos:]
+    return bytes(out)
+
+
+def c07_run(ctx, scale):
+    res = Result("generated programs, each re-encoded k times with fresh representational choices (raw/zlib per cel, "
+                 "which chunk-count field, padding after chunks and after the last frame, frame-size slack, unused header "
+                 "/ layer / cel / tag / slice / palette / tileset fields and flag bits, pixel ratio with a zero component, "
+                 "ignorable chunks and colour profiles inserted anywhere) plus flate2-level recompression 0..9 of every "
+                 "compressed cel; oracle: all encodings of one program give the same whole-API observation; "
+                 "distinct = distinct encodings")
+    k = 6 if ctx.quick else 24
+    n = (40 if ctx.quick else 800) * scale
+    reqs = []
+    per = max(1, n // vlib.CORES)
+    for prof in ("struct", "tiles"):
+        for j in range(0, n, per):
+            reqs.append(f"GENVAR {prof} {ctx.seed * 1000 + scale * 100 + j} {min(per, n - j)} {k}")
+    cases, inputs, _ = run_driver_raw(reqs)
+    files = [(cid, bytes.fromhex(hx)) for cid, hx in inputs]
+    # flate2 levels: recompress the zlib cels of the base encoding
+    extra = []
+    for cid, b in files:
+        if cid.endswith("-1"):
+            for level in ((0, 9) if ctx.quick else range(10)):
+                try:
+                    extra.append((cid[:-2] + f"-z{level}", recompress(b, level)))
+                except Exception:
+                    pass
+    if extra:
+        m2, _ = vlib.run_model(vlib.load_lines(extra))
+        cases.update(m2)
+    files += extra
+    impl, _ = vlib.run_impl(vlib.load_lines(files))
+    compare_cases(res, files, cases, impl, ALL, must_load_oracle, what="whole-API observation")
+    groups = {}
+    for cid, b in files:
+        groups.setdefault(cid.rsplit("-", 1)[0], []).append((cid, b))
+    for g, members in groups.items():
+        ref_id, ref_b = members[0]
+        ref = impl.get(ref_id)
+        for cid, b in members[1:]:
+            o = impl.get(cid)
+            if o != ref:
+                d = vlib.first_diff(ref, o)
+                res.oracle_failures.append({"id": cid, "what": "two encodings of the same sprite are observed differently: "
+                                            f"line {d[0]}: {d[1][:200]} | {d[2][:200]}",
+                                            "input_hex": b.hex(), "other_encoding_hex": ref_b.hex(),
+                                            "call": "whole-API observation of two encodings"})
+                break
+    res.distribution["programs"] = len(groups)
+    res.distribution["encodings_per_program"] = k
+    return res
+
+
+register("C07", c07_run)
+
+
+# ------------------------------------------------------------------------------------------
+# C10: user data attachment, exhaustive over chunk sequences
+
+def ud_chunk(text):
+    t = text.encode()
+    return mk_chunk(0x2020, struct.pack("<I", 1) + struct.pack("<H", len(t)) + t)
+
+
+def c10_sequences(maxlen):
+    """all sequences over the 8 chunk kinds up to length maxlen that satisfy the quantifier's side
+    conditions; yields (kinds, expected attachments)"""
+    kinds = ["layer", "cel", "slice", "tags2", "oldpal", "pal", "ign", "ud"]
+    def rec(seq, ctx, used, nlayers, ncels, pending_tags, depth):
+        if seq:
+            yield list(seq)
+        if depth == 0:
+            return
+        for k in kinds:
+            if k == "ud":
+                if ctx is None:
+                    continue
+                tgt = ctx
+                if tgt[0] == "tag":
+                    if tgt[1] >= 2:
+                        continue
+                    newctx = ("tag", tgt[1] + 1)
+                else:
+                    newctx = ctx
+                if tgt in used:
+                    continue
+                seq.append(k)
+                yield from rec(seq, newctx, used | {tgt}, nlayers, ncels, pending_tags, depth - 1)
+                seq.pop()
+            elif k == "layer":
+                seq.append(k)
+                yield from rec(seq, ("layer", nlayers), used, nlayers + 1, ncels, pending_tags, depth - 1)
+                seq.pop()
+            elif k == "cel":
+                if ncels >= nlayers:
+                    continue       # one cel per existing layer, in layer order
+                seq.append(k)
+                yield from rec(seq, ("cel", ncels), used, nlayers, ncels + 1, pending_tags, depth - 1)
+                seq.pop()
+            elif k == "slice":
+                ns = sum(1 for x in seq if x == "slice")
+                seq.append(k)
+                yield from rec(seq, ("slice", ns), used, nlayers, ncels, pending_tags, depth - 1)
+                seq.pop()
+            elif k == "tags2":
+                if "tags2" in seq:
+                    continue
+                seq.append(k)
+                yield from rec(seq, ("tag", 0), used, nlayers, ncels, pending_tags, depth - 1)
+                seq.pop()
+            elif k == "oldpal":
+                seq.append(k)
+                yield from rec(seq, ("sprite",), used, nlayers, ncels, pending_tags, depth - 1)
+                seq.pop()
+            else:
+                seq.append(k)
+                yield from rec(seq, ctx, used, nlayers, ncels, pending_tags, depth - 1)
+                seq.pop()
+    yield from rec([], None, frozenset(), 0, 0, 0, maxlen)
+
+
+def c10_build(seq):
+    """file for a kind sequence and the declaratively expected attachments"""
+    chunks = []
+    expected = {}
+    ctx = None
+    nl = ncel = ns = 0
+    tagn = 0
+    for idx, k in enumerate(seq):
+        if k == "layer":
+            chunks.append(mk_layer(name=b"L%d" % nl)); ctx = ("layer", nl); nl += 1
+        elif k == "cel":
+            chunks.append(mk_chunk(0x2005, struct.pack("<HhhBH", ncel, 0, 0, 255, 0) + bytes(7) + struct.pack("<HH", 1, 1) + bytes([1, 2, 3, 255])))
+            ctx = ("cel", ncel); ncel += 1
+        elif k == "slice":
+            chunks.append(mk_chunk(0x2022, struct.pack("<III", 0, 0, 0) + struct.pack("<H", 1) + b"s")); ctx = ("slice", ns); ns += 1
+        elif k == "tags2":
+            p = struct.pack("<H", 2) + bytes(8)
+            for t in range(2):
+                p += struct.pack("<HHBH", 0, 0, 0, 0) + bytes(6) + struct.pack("<I", 0) + struct.pack("<H", 1) + b"t"
+            chunks.append(mk_chunk(0x2018, p)); ctx = ("tag", 0)
+        elif k == "oldpal":
+            chunks.append(mk_chunk(0x0004, struct.pack("<H", 1) + bytes([0, 1, 9, 9, 9]))); ctx = ("sprite",)
+        elif k == "pal":
+            chunks.append(mk_chunk(0x2019, struct.pack("<III", 1, 0, 0) + bytes(8) + struct.pack("<HBBBB", 0, 1, 2, 3, 255)))
+        elif k == "ign":
+            chunks.append(mk_chunk(0x2006, bytes(20)))
+        elif k == "ud":
+            text = f"u{idx}"
+            chunks.append(ud_chunk(text))
+            expected[ctx] = text
+            if ctx[0] == "tag":
+                ctx = ("tag", ctx[1] + 1)
+    return mk_header(1, 2, 2) + mk_frame(chunks), expected, (nl, ncel, ns)
+
+
+def c10_run(ctx, scale):
+    res = Result("EXHAUSTIVELY every chunk sequence over {layer, cel, slice, tags(2), legacy palette, palette, ignorable, "
+                 "user data} up to length 5 (quick) / 6 (thorough) in which every user-data chunk has a preceding "
+                 "attachable entity, no entity receives two records, at most 2 records follow tags(2), plus the generated "
+                 "well-formed programs of the struct profile; oracle: each record is reported by the entity whose chunk "
+                 "most recently preceded it and by no other entity; distinct = distinct sequences")
+    maxlen = 5 if ctx.quick else 6
+    files, exp = [], {}
+    for seq in c10_sequences(maxlen):
+        if "ud" not in seq:
+            continue
+        b, expected, counts = c10_build(seq)
+        cid = "seq/" + ",".join(seq)
+        files.append((cid, b))
+        exp[cid] = (expected, counts)
+    res.exhaustive = True
+    m, i = run_both(files)
+    def hexname(t):
+        return "h:" + t.encode().hex()
+    def orc(cid, data, impl, model):
+        if vlib.outcome(impl) != "ok":
+            return "a well-formed chunk sequence did not load: " + vlib.outcome_detail(impl)
+        expected, (nl, ncel, ns) = exp[cid]
+        got = {}
+        for l in impl:
+            w = l.split(" ")
+            ud = next((x[3:] for x in w if x.startswith("ud=")), None)
+            if w[0] == "layer":
+                got[("layer", int(w[1]))] = ud
+            elif w[0] == "celA":
+                got[("cel", int(w[2]))] = ud
+            elif w[0] == "slice":
+                got[("slice", int(w[1]))] = ud
+            elif w[0] == "tag":
+                got[("tag", int(w[1]))] = ud
+            elif w[0] == "sprite_ud":
+                got[("sprite",)] = w[1]
+        for tgt, ud in got.items():
+            want = expected.get(tgt)
+            wants = "-" if want is None else f"t:{hexname(want)},c:-"
+            if ud != wants:
+                return f"entity {tgt} reports user data {ud}, expected {wants}"
+        for tgt in expected:
+            if tgt not in got:
+                return f"entity {tgt} was expected to carry a record but is not observable"
+        return None
+    compare_cases(res, files, m, i, ["layer", "celA", "slice", "tag", "sprite_ud"], orc, what="user data of every entity")
+    res.distribution["sequences"] = len(files)
+    res.distribution["max_length"] = maxlen
+    # random longer programs from the type-directed generator (three-way via the model)
+    gen = wf_routine(["layer", "celA", "celB", "celC", "slice", "tag", "sprite_ud"],
+                     [("struct", 200, 5000)], "", corpus=True)(ctx, scale)
+    res.merge(gen)
+    return res
+
+
+register("C10", c10_run)
+
+
+# ------------------------------------------------------------------------------------------
+# C16: repetition, threads, build profiles
+
+def c16_run(ctx, scale):
+    res = Result("loadable corpus and generated files: the whole-API observation computed from 16 threads sharing one "
+                 "&AsepriteFile, repeated sequentially, and from a second load, in the release build and in the build with "
+                 "overflow checks and debug assertions; oracle: all observations of one file are identical (also across the "
+                 "two builds); the harness asserts AsepriteFile: Send + Sync at compile time; "
+                 "distinct = distinct files")
+    files = [(c, b) for c, b in vlib.corpus_files(max_size=9000) if c != "color-curve.aseprite"]
+    for prof, nq, nt in (("struct", 40, 1500), ("render", 40, 1500), ("tiles", 25, 800)):
+        fs, _ = vlib.gen_cases(prof, ctx.seed * 53 + scale, (nq if ctx.quick else nt) * scale)
+        files += fs
+    reqs = [f"THREADS {cid} {b.hex()} 16" for cid, b in files]
+    outs = {}
+    for profile in ("release", "relchk"):
+        outs[profile], _ = vlib.run_impl(reqs, profile)
+    model, _ = vlib.run_model(vlib.load_lines(files))
+    res.sections = ALL
+    for cid, data in files:
+        res.evaluations += 1
+        res.compared += 1
+        res._distinct.add(hash(data))
+        a, b = outs["release"].get(cid), outs["relchk"].get(cid)
+        m = model.get(cid)
+        fail = None
+        for prof, o in (("release", a), ("relchk", b)):
+            if o is None:
+                raise vlib.Broken("no observation for " + cid)
+            diff = [l for l in o if l.startswith("differs") or "PANIC" in l or l == "load panic"]
+            if diff:
+                fail = f"[{prof}] observation not stable / panicked: {diff[0][:200]}"
+        if fail is None and a != b:
+            d = vlib.first_diff(a, b)
+            fail = f"optimised and checked builds observe different results: line {d[0]}: {d[1][:200]} | {d[2][:200]}"
+        if fail:
+            res.oracle_failures.append({"id": cid, "what": fail, "input_hex": data.hex(),
+                                        "call": "THREADS (16 threads, repeated, second load), both build profiles"})
+        elif a != m:
+            d = vlib.first_diff(m, a)
+            res.corr_diffs.append({"correspondence": "Ase model observation <-> concurrent observation of the implementation",
+                                   "id": cid, "input_hex": data.hex(),
+                                   "first_difference": {"line": d[0], "model": d[1][:300], "impl": d[2][:300]}})
+        if len(res.samples) < 4:
+            res.samples.append({"id": cid, "bytes": len(data), "threads": 16, "observation_lines": len(a)})
+    return res
+
+
+register("C16", c16_run, profiles=("release", "relchk"), build_failure_is_violation=True)
